@@ -42,6 +42,10 @@ pub fn refers(e: &EntryArc, a: Attribute) -> BTreeSet<Uuid> {
     e.get_ava_set(a).and_then(|vs| vs.as_ref_uuid_iter().map(|i| i.collect())).unwrap_or_default()
 }
 
+pub fn uuids_of(e: &EntryArc, a: Attribute) -> Vec<Uuid> {
+    ava_strings(e, a).iter().filter_map(|s| Uuid::parse_str(s).ok()).collect()
+}
+
 /// C16: every reference-valued attribute of a live entry points at a live entry.
 pub fn refint<S: SchemaTransaction>(snap: &Snap, schema: &S) -> Vec<Finding> {
     let mut out = vec![];
@@ -157,6 +161,11 @@ pub fn spn(snap: &Snap) -> Vec<Finding> {
             continue;
         }
         let names = ava_strings(e, Attribute::Name);
+        if names.is_empty() {
+            // A group whose (optional) name was purged has nothing to derive an SPN from; the
+            // statement speaks of creates and renames, so such an entry is outside it.
+            continue;
+        }
         let spns = ava_strings(e, Attribute::Spn);
         let ok = names.len() == 1 && spns.len() == 1 && spns[0] == format!("{}@{}", names[0], snap.domain);
         if !ok {
